@@ -2132,3 +2132,17 @@ PROPS["C09"]["level_text"] += (" Out-of-range numbers, typed targets (Props/Type
     "different indices needs a 128-bit target (the one site is do_deserialize_i128/u128, self.error after buf.parse() failed with the byte "
     "that ended scan_integer128's digits peeked), reader = slice + 1, slice index < len; kernel-checked witnesses on both sides (1e999 as "
     "f64 / Vec<f64> / u64: equal; 2^128 followed by a byte as u128: slice 39, reader 40; c09_typed_out_of_range_128_shift).")
+
+# ---- C11: machine index -> (line, column) of the crate's bookkeeping, one corollary per source (makes the honesty-pass item's composition explicit)
+PROPS["C11"]["lean_targets"] = PROPS["C11"]["lean_targets"][:-1] + ["SJ.Props.C11Compose"] + PROPS["C11"]["lean_targets"][-1:]
+PROPS["C11"]["partial"] = [x for x in PROPS["C11"]["partial"] if not x.startswith("the tie from the machine's byte index to the readers' line/column bookkeeping")] + [
+    "the machine itself does not run Model.LineCol: that the crate calls position_of_index / reads the LineColIterator's counters with "
+    "exactly the machine's index is the documented reading of errIdx, tied by correspondence (ops lc3 / lcs). What is a theorem is the "
+    "composition on that index: c11_slice_error_linecol / c11_reader_error_linecol (if parseTop fails from a slice resp. reader with index "
+    "idx then idx <= len and the bookkeeping model's Position for idx is lineCol bs idx, line <= 1 + newlines of the input, column <= idx)",
+]
+PROPS["C11"]["level_text"] += (" Composition (Props/C11Compose.lean): c11_slice_error_linecol - for every configuration, both untyped targets "
+    "and every byte string, if the parser fails from a slice with index idx then idx <= len, position_of_index(idx) does not panic and is "
+    "lineCol bs idx (= the naive memrchr / memchr count), line = 1 + newlines among the first idx bytes <= 1 + newlines of the input, "
+    "column <= idx; c11_reader_error_linecol - the same from a reader: the LineColIterator that has handed out idx bytes (last one peeked "
+    "or not) shows (line, col) = lineCol bs idx and byte_offset() = idx (c11_within_input + c11_slice_linecol / c11_iter_linecol).")
